@@ -75,7 +75,8 @@ impl Records {
     /// Update a file image's data using the records, this is usually done before writing to a disk image.
     /// This will set the file image's eof, but no other metadata.
     pub fn update_fimg(&self,ans: &mut FileImage,require_first: bool,converter: impl TextConversion,clear: bool) -> STDRESULT {
-        if self.record_len < 2 || self.record_len > 0xffff {
+        // the unpackers take record lengths up to 32767
+        if self.record_len < 2 || self.record_len > 32767 {
             log::error!("refusing record length {}",self.record_len);
             return Err(Box::new(Error::FileFormat));
         }
